@@ -1,1 +1,2 @@
+pub mod engine;
 pub mod r1;
